@@ -986,6 +986,7 @@ class Interp:
                 if on_path: on_path(st, 'ok', None)
             except PathEnd:
                 s.pruned += 1
+                if on_path and not st.forced: on_path(st, 'pruned', None)     # its prefix was feasible: reachability witnesses on it count
                 if st.forced: raise Err('path ended while replaying a forced decision prefix')
             except Violation as v:
                 s.paths += 1
